@@ -24,3 +24,7 @@ CHECKS['C02'] = ('model_checking',
     'differential conformance by bounded exhaustive enumeration: every expression tree of the C01 alphabet (<=3 nodes quick, extended 4-node families thorough) and 22 feature grammars (directives, keywords, params, Python-keyword names, upper-case rules, literals, left recursion, based/include/override rules, constants, meta, skip-to, eol, joins) x all inputs up to a length bound x 5 parse-time settings x {no semantics, tagging, identity}; generated source must compile, load and agree with model.parse on accept/reject and AST',
     'trusted: the in-memory model as reference (itself checked by C01); grammars the code generator refuses by design (repetition of a nullable body) are counted and skipped',
     'exhaustive enumeration of programs x inputs x configurations, differential between two implementations')
+CHECKS['C03'] = ('model_checking',
+    'reference-model conformance by bounded exhaustive enumeration: 18 left-recursion templates x every assignment of rule names to the cycle rules x entry through every cycle rule x all token strings up to length 5 (quick) / 7 (thorough), anchored and prefix parses; termination and model==generated for all, equality with the reference seed-growing evaluator and the left-fold closed form for single-head cycles, rename-invariance of accept/reject for mutual cycles',
+    'trusted: the reference evaluator (dynamic-head seed growing); watchdog 10 s + interpreter recursion limit stand for "terminates"',
+    'explicit enumeration of programs x inputs against a reference model, every model trace replayed on the implementation')
